@@ -125,7 +125,10 @@ CLAIMED = {
 
 # rules added after the first version of a check: (sentence appended to the level text, technique suffix)
 ADDENDA = {
- 'C01': ('Value tables addressed by entry number are compared with the specification as well (R01.5).', ''),
+ 'C01': ('Value tables addressed by entry number are compared with the specification as well (R01.5); every counter in '
+         'vorbis_synthesis_blockin advances by blocksizes[previous]/4+blocksizes[current]/4 with the flags discovered from '
+         'the stores (R01.6); the residue-2 de-interleave cursor starts at the vector position the offset names (R01.7, exact '
+         'evaluation of the cursor initialisers).', ' + linear forms over block sizes + exact evaluation of initialisers'),
  'C02': ('The window pcm_returned <= pcm_current is decided as an invariant of every decode-side writer by a relational '
          'pair-invariant analysis (affine upper bounds in the two fields, half-rate shift made concrete), whatever the form of '
          'the clamps; helper functions an unpacker was split into are analysed as part of it; initialisers clean up only an '
@@ -138,18 +141,27 @@ ADDENDA = {
          ' + stuck-state analysis of sentinel loops + null-entry analysis of the info accessors'),
  'C05': ('The managed-bitrate path hands out one of the PACKETBLOBS encodings (R05.6), residue entry numbers are mixed-radix '
          'numbers with digits below the radix (R05.7), and submap bundles pair each slot with one channel identically in '
-         'encoder and decoder (R05.8).', ' + K4 value analysis of blob choice and codeword digits'),
+         'encoder and decoder (R05.8); every residue entry handed to the book encoder passed a non-zero codeword-length test '
+         'or the nearest-used-entry search on every path (R05.9).', ' + K4 value analysis of blob choice and codeword digits + must-path analysis of the quantiser'),
  'C07': ('The window history of vorbis_synthesis_blockin is recorded before anything reads it, also for track-only blocks '
-         '(R07.8); events performed inside helper functions count (a helper that must restart the decoder, may move the stream).',
-         ''),
+         '(R07.8); events performed inside helper functions count (a helper that must restart the decoder, may move the stream); '
+         'the data offsets seeks start from see their link\'s header fetch as last writer of the stream position (R07.9, '
+         'provenance analysis); a scratch ogg_stream_state is live whenever it is used (R07.10, typestate); a negative position '
+         'is clamped in the link-relative frame, before the earlier links\' lengths are added (R07.11).',
+         ' + provenance/last-writer analysis + libogg object typestate (K2 flags)'),
  'C08': ('The sample-discard loop of a sample-accurate seek makes progress: the remaining distance is at least one output '
          'sample whenever its body runs, at full and at half rate (R08.8); page properties kept in flags are recomputed for '
          'every page submitted (R08.9).', ' + K4 progress obligation on the discard loop'),
  'C09': ('Block-overlap sums skip the first packet at every site (R09.6) and the downward search over the links ends on a link '
-         'wherever its variable subscripts a per-link table (R09.7: K4, with the lemma that the remaining total is 0 at link 0).',
-         ' + K4 range obligations on link searches'),
+         'wherever its variable subscripts a per-link table (R09.7: K4, with the lemma that the remaining total is 0 at link 0).'
+         ' A link\'s serial number and data offset in the per-link tables derive from reads of the stream state whose last '
+         'writer is that link\'s header fetch (R09.8).',
+         ' + K4 range obligations on link searches + provenance/last-writer analysis'),
  'C10': ('_fetch_headers performs the stream set-up of the link in every call that reports success, whatever state the handle '
-         'was entered in (R10.4).', ''),
+         'was entered in (R10.4); serial numbers in the link table see their link\'s header fetch (R10.5); a fetched page is '
+         'submitted to a stream state at most once, helpers summarised (R10.6: no spurious hole); the half-rate request '
+         'survives the re-creation of the info at a streaming link boundary (R10.7).',
+         ' + libogg page typestate (K2 flags with K5 entry states) + provenance analysis'),
  'C11': ('The lazily filled floor-0 cache is read only after the fill (R11.6); the arena reset may sit in a helper that performs '
          'it on every path.', ''),
  'C12': ('A lazy-initialisation gate is never left set by a failed initialisation (R12.8: the decode book table), buffered '
@@ -166,10 +178,12 @@ ADDENDA = {
  'C17': ('The channel count used for interleaving is the decoded link\'s and is not stale across the packet fetch (R17.5, R17.6).', ''),
  'C18': ('Decode scratch from the block arena is zeroed for every channel whatever the arena held (R18.6).', ''),
  'C19': ('The packet fetch reports end-of-file to the lap helpers only at a link boundary (R19.5) and vorbis_synthesis_lapout '
-         'can be called again on the state it left: every window move is guarded by a test the function falsifies (R19.6).',
-         ' + K4/K2 idempotence rule for lapout'),
+         'can be called again on the state it left: every window move is guarded by a test the function falsifies (R19.6); '
+         'its relocations end at the block centre and the window fields move with the data (R19.7, linear identities).',
+         ' + K4/K2 idempotence rule for lapout + linear identities over block-size locals'),
  'C20': ('Units of measure are checked in the block layer as well (R20.6: stream vs output samples meet only through the '
-         'half-rate shift, the flag is never added to a sample count).', ' + units-of-measure tag analysis in lib/block.c'),
+         'half-rate shift, the flag is never added to a sample count); the half-rate request is carried over when the info '
+         'is discarded and rebuilt at a streaming link boundary (R20.8).', ' + units-of-measure tag analysis in lib/block.c + K2 must-restore rule'),
 }
 
 NA = {
